@@ -37,6 +37,14 @@ def h(x):
     return zlib.crc32(json.dumps(x, sort_keys=True).encode())
 
 
+SIM_BODY = """
+INIT Init
+NEXT Next
+CONSTRAINT Emit
+CHECK_DEADLOCK FALSE
+"""
+
+
 def gen(wd, fam, units, maxu, timeout=3000):
     consts = {"V": "<- " + ("VBpe" if fam == "bpe" else "VSpm"), "Units": "<- " + units, "MaxUnits": maxu}
     cfg = vf.write_cfg(wd, f"MC_Tok_{fam}_{units}.cfg", consts, MC_BODY)
@@ -63,7 +71,11 @@ def run(tier="quick", seed=1, replay=None):
             if not voc:
                 raise vf.Inconclusive("vocabulary was not printed by MC_Tokenizer")
             vocabs[fam] = voc[0]
-            texts = vf.dedupe([v for v in vals if isinstance(v, dict) and "us" in v])
+            texts = [v for v in vals if isinstance(v, dict) and "us" in v]
+            # longer texts (<= 7 units) by random walks through the same machine
+            cfg = vf.write_cfg(wd, f"Sim_Tok_{fam}.cfg", {"V": "<- " + ("VBpe" if fam == "bpe" else "VSpm"), "Units": "<- " + units, "MaxUnits": 7}, SIM_BODY)
+            sims, _ = vf.gen_simulate("MC_Tokenizer", cfg, wd, num=2500 if quick else 30000, depth=12, seed=seed)
+            texts = vf.dedupe(texts + [v for v in sims if isinstance(v, dict) and "us" in v])
             # unit atoms: printed once by a tiny evaluation of the constant
             unit_atoms[fam] = None
             cases.append((fam, texts))
@@ -112,7 +124,7 @@ def run(tier="quick", seed=1, replay=None):
                     m += 1
                     recs_in.append(dict(kind="case", id=f"real{m}", fam="real", pre="llama3", text=list(s), specials=sp, add=False))
             recs_in += vf.load_witnesses(PROP)
-        cov["bounds"] = (f"toy vocabularies (256 byte tokens + 18 merged pieces + 1 control token each): every text of <= {maxu} units over 15 (bpe) / 12 (spm) "
+        cov["bounds"] = (f"toy vocabularies (256 byte tokens + 18 merged pieces + 1 control token each): every text of <= {maxu} units (and sampled texts of <= 7 units) over 15 (bpe) / 12 (spm) "
                          "units incl. blank, ~, DEL, 0x01, soft hyphen, no-break space, 4-byte emoji, combining mark, special-token literal and its look-alikes; "
                          f"real llama 3.2 vocabulary: every text of <= {2 if quick else 3} units over 26 concrete units (scripts, digits, whitespace runs, contractions, special literals)")
         recs, v, _ = vf.replay_and_validate(wd, recs_in, "./model", "TestVFTokenizerReplay", ["model"], "Trace_Tokenizer", go_timeout=1800)
